@@ -18,7 +18,7 @@ from mc.checks import rules_common as R
 
 PROPERTY = "C19"
 LEVEL = "exploration"
-RULE = ("cases = every sequence of 1..4 tokens over 29 tokens (thorough adds every 5-token sequence over the first 18) (WHOLE, FOODS, netflix.com, C++, (X), AT&T, O'REILLY, "
+RULE = ("cases = every sequence of 1..4 tokens over 30 tokens (thorough adds every 5-token sequence over the first 18) (WHOLE, FOODS, netflix.com, C++, (X), AT&T, O'REILLY, "
         "SAY\"HI\", X\\Y, #12, 1234, 98101, WA, A*B, [Z], $5, Café, a|b, 16\", #B4, PIE#2, WWW.SOUTHWESTAIRLINES.COM, INTERNATIONAL, A.B.C.D.E.F) joined by single blanks (plus the double-blank variant for 2-token "
         "descriptions) x 6 prefixes (none, APLPAY, SQ *, TST*, PP*, GOOGLE *); plus end-to-end discover->append->discover runs on statements of "
         "6 descriptions each. non-trivial = description with >=2 tokens or any non-alphanumeric character; descriptions distinct by construction")
@@ -30,7 +30,9 @@ TOKENS = ["WHOLE", "FOODS", "netflix.com", "C++", "(X)", "AT&T", "O'REILLY", 'SA
           # characters whose upper-case form is longer than one character
           "Straße", "ﬁn",
           # a processor prefix in the middle of a word / name; a base letter followed by a combining mark
-          "APP*JOHN", "WASP", "CAFE\u0301"]
+          "APP*JOHN", "WASP", "CAFE\u0301",
+          # a description cell may hold a line break (quoted CSV cell)
+          "TWO\nLINES"]
 PREFIXES = ["", "APLPAY ", "SQ *", "TST*", "PP*", "GOOGLE *"]
 
 
@@ -58,6 +60,8 @@ def gen_cases(tier):
     for i, ch in enumerate(chunks):
         if tier == "thorough" or i % 3 == 0:
             yield {"kind": "e2e", "descriptions": ch}
+    # unknown descriptions that get the SAME suggested merchant name (two rule blocks with one name), also colliding with an existing rule's name
+    yield {"kind": "e2e", "descriptions": ["ACME CORP DES:PAYROLL ID:99", "ACME CORP ID:4471 WEB", "KNOWN 0123", "A*B FOODS", "A B FOODS", "TWO\nLINES SHOP"]}
 
 
 def descriptions_for(tokens):
